@@ -55,9 +55,8 @@ void Runner<A>::racePhase() {
     // single-threaded baseline
     std::vector<std::vector<uint64_t>> expected((size_t)T), got((size_t)T);
     std::vector<sim::RunResult> tres((size_t)T), sres((size_t)T);
-    const uint64_t before = sweepDigest(*baseline, mo);
-    for (int t = 0; t < T; ++t) expected[(size_t)t] = runTask(t, false, sres[(size_t)t]);
-    // concurrent phase
+    // concurrent phase FIRST: whatever the library initialises lazily (per object or per process) is then first touched by
+    // the readers; the single-threaded baseline (on the copy) is computed afterwards - the results do not depend on the order
     bgs_init(T, plan.sched.empty() ? nullptr : plan.sched.data(), (int)plan.sched.size());
     simdisk::ctl().yieldHook = &raceWriteHook;
     std::vector<std::thread> th;
@@ -72,6 +71,8 @@ void Runner<A>::racePhase() {
     bgs_start();
     for (auto &x : th) x.join();
     simdisk::ctl().yieldHook = nullptr;
+    const uint64_t before = sweepDigest(*baseline, mo);
+    for (int t = 0; t < T; ++t) expected[(size_t)t] = runTask(t, false, sres[(size_t)t]);
     ++faultsFired;
     res.faults.inc("race_phase");
     res.probes.inc("context_switches", bgs_switches());
